@@ -17,6 +17,8 @@ Extra leaves, used only by extra_programs() (each put in every context of depth 
   ["EWC", [DM*]] / ["EWC", [["EWC", ..]]]   one do-mac / eval-when-compile as the whole body of an
                    eval-when-compile: the outer body runs once, at compile time, so the inner form's
                    compile-time part and the code it leaves both run once, at compile time
+  ["W2", T]        (with [_ (rc_cm) _ (do (setv k 2) T (rc_cm))] (rc_log j)): a staging form T inside the statement-producing
+                   expression of a NON-FIRST context manager (rc_cm = contextlib.nullcontext)
   ["LETF"]         (let [v (rc_log i)] (defn f [] (eval-when-compile (setv v (rc_log j))) (rc_val k v)) (f))
                    the compile-time assignment contributes nothing to the function: it reads the let variable
 
@@ -39,7 +41,7 @@ Reference (the documentation's sentences):
 import itertools
 
 CALLS = (0, 2)
-STAGING = ("EWC", "EAC", "DMQ", "DMV", "DMF", "LETF")
+STAGING = ("EWC", "EAC", "DMQ", "DMV", "DMF", "LETF", "W2")
 FALSY = [("0", 0), ('""', ""), ("[]", []), ("False", False), ("None", None)]
 
 
@@ -47,7 +49,7 @@ def size(t):
     tag = t[0]
     if tag in ("L", "DMQ", "DMV", "DMF", "LETF"):
         return 1
-    if tag == "V":
+    if tag in ("V", "W2"):
         return 1 + size(t[1])
     return 1 + sum(size(b) for b in t[1])
 
@@ -117,7 +119,8 @@ def programs(max_size):
 
 
 EXTRA_LEAVES = [["DMF", k] for k in range(len(FALSY))] + [
-    ["EWC", [["DMQ"]]], ["EWC", [["DMV"]]], ["EWC", [["EWC", [["L"]]]]], ["EWC", [["DMF", 0]]], ["LETF"]]
+    ["EWC", [["DMQ"]]], ["EWC", [["DMV"]]], ["EWC", [["EWC", [["L"]]]]], ["EWC", [["DMF", 0]]], ["LETF"],
+    ["W2", ["EWC", [["L"]]]], ["W2", ["EAC", [["L"]]]], ["W2", ["DMQ"]]]
 
 
 def extra_programs():
@@ -198,6 +201,11 @@ class Build:
             i = self.site()
             lit, val = FALSY[t[1]]
             return "(do-mac (rc_log %d) %s)" % (i, lit), [("log", i)], ([], val)
+        if tag == "W2":
+            inner, ct, (rt, _v) = self.term(t[1], in_fn)
+            j = self.site()
+            src = "(with [_ (rc_cm) _ (do (setv k 2) %s (rc_cm))] (rc_log %d))" % (inner, j)
+            return src, ct, (rt + [("log", j)], 10 * j)
         if tag == "LETF":
             i, j, k = self.site(), self.site(), self.site()
             src = ("(let [v (rc_log %d)] (defn f%d [] (eval-when-compile (setv v (rc_log %d))) (rc_val %d v)) (f%d))" % (i, i, j, k, i))
